@@ -9,6 +9,9 @@ GROUP = {'name': 'ConnLoop',
                 'while_body': 0,
                 'loop_state': ['connections_to_process', 'unchanged_loop_count', 'st'],
                 'params': ['self', 'connections_to_process', 'unchanged_loop_count', 'st'],
+                # the test of `while connections_to_process:` as a definition of its own (`addConnectionsBody_test`):
+                # used by the closed loop `genConnectLoop` of lean/Cellml/Tie/ConnLoopClosed.lean
+                'emit_loop_test': '(connections_to_process : List (VRef × VRef)) : Bool',
                 'signature': '(self : ConnLoopView) (connections_to_process : List (VRef × VRef)) '
                              '(unchanged_loop_count : Nat) (st : CState) : Except PyErr (List (VRef × VRef) × Nat × '
                              'CState)',
